@@ -48,6 +48,29 @@ func randCase(r *rand.Rand, s string, p float64) string {
 	return string(b)
 }
 
+// randCaseBlocks lower-cases whole stretches of s (soft-masked regions): an upper-case head of 0..n letters,
+// then blocks of alternating case with lengths drawn up to maxBlock.
+func randCaseBlocks(r *rand.Rand, s string, maxBlock int) string {
+	b := []byte(s)
+	lower := r.Intn(2) == 0
+	for i := 0; i < len(b); {
+		n := 1 + r.Intn(maxBlock)
+		if i == 0 && r.Intn(2) == 0 {
+			n = 61 + r.Intn(200) // a long head in one case
+		}
+		for j := i; j < i+n && j < len(b); j++ {
+			if lower && b[j] >= 'A' && b[j] <= 'Z' {
+				b[j] += 32
+			} else if !lower && b[j] >= 'a' && b[j] <= 'z' {
+				b[j] -= 32
+			}
+		}
+		i += n
+		lower = !lower
+	}
+	return string(b)
+}
+
 func rotate(s string, k int) string {
 	if len(s) == 0 {
 		return s
